@@ -82,6 +82,9 @@ func c06Check(ps *protoServer, tn string, eio string, sessionNo int, interval, t
 	if initial != nil {
 		verif.Assert(len(pk) == 2 && pk[1].Type == packet.MESSAGE, "initial packet is the first message right after the open packet")
 		if len(pk) == 2 && pk[1].Data != nil {
+			// the kind of the configured message (text or binary) is what the transports encode by
+			_, isText := pk[1].Data.(*types.StringBuffer)
+			verif.Assert(isText == c06InitialText, "initial packet keeps its kind (text / binary)")
 			got, _ := io.ReadAll(pk[1].Data)
 			verif.Assert(len(got) == len(initial), "initial packet payload length")
 			if len(got) == len(initial) {
@@ -94,6 +97,9 @@ func c06Check(ps *protoServer, tn string, eio string, sessionNo int, interval, t
 		verif.Assert(len(pk) == 1, "nothing but the open packet")
 	}
 }
+
+// c06InitialText: the configured initial packet is a text (StringBuffer) or a binary (BytesBuffer) message.
+var c06InitialText bool
 
 func VerifH_C06_handshake() { verif.RunTimed(c06Handshake) }
 
@@ -129,7 +135,12 @@ func c06Handshake() {
 	var initial []byte
 	if verif.Choose(2) == 1 {
 		initial = verif.BytesN(verif.Int(0, 3))
-		opts.SetInitialPacket(types.NewBytesBuffer(append([]byte(nil), initial...)))
+		c06InitialText = verif.Bool()
+		if c06InitialText {
+			opts.SetInitialPacket(types.NewStringBuffer(append([]byte(nil), initial...)))
+		} else {
+			opts.SetInitialPacket(types.NewBytesBuffer(append([]byte(nil), initial...)))
+		}
 	}
 	ps := newProtoServer(opts)
 	rec := &evRec{}
